@@ -234,8 +234,9 @@ def c11(tier):
     q = [_ob("H-fault", "harness.h_fault", "h_fault", dict(shapes=["indep2", "chain3"], later_attempts=1), **_HO)]
     if tier == "quick":
         return q
-    return q + [_ob("H-fault/wide", "harness.h_fault", "h_fault", dict(shapes=["indep3", "fork3"], maxns=[None, 1], later_attempts=2),
-                    **_HO)]
+    return q + [_ob("H-fault/fork3", "harness.h_fault", "h_fault", dict(shapes=["fork3"], maxns=[None, 1], later_attempts=1), **_HO),
+                _ob("H-fault/indep3", "harness.h_fault", "h_fault", dict(shapes=["indep3"], maxns=[None], later_attempts=1), **_HO),
+                _ob("H-fault/2-attempts", "harness.h_fault", "h_fault", dict(shapes=["indep2"], later_attempts=2), **_HO)]
 
 
 def obligations(prop, tier):
@@ -245,7 +246,9 @@ def obligations(prop, tier):
         "C03": lambda t: h_submit(t) + h_races(t, double=(t == "thorough")) + k_tally(t) + [_ob("K-launch/nonmanager", KL, "k_launch_nonmanager", {})],
         "C04": lambda t: k_queue(t) + k_collect(t) + h_submit(t),
         "C05": lambda t: k_batch(t) + h_submit(t) + h_races(t),
-        "C06": lambda t: k_batch(t) + k_queue(t) + h_submit(t) + h_races(t, user=False),
+        "C06": lambda t: k_batch(t) + k_queue(t) + h_submit(t) + h_races(t, user=False) + [
+            _ob("H-submit/squeue-fault", H, "h_submit", dict(shapes=["indep3"], bss=[1], maxns=[1, 2], fails=False, cancel_flags=False,
+                                                             squeue_fault=True), **_HO)],
         "C07": lambda t: k_batch(t, deep=True) + h_submit(t) + h_dry(t) + [_ob("K-walltime", KC, "k_walltime", {})],
         "C08": c08,
         "C09": lambda t: k_collect(t) + h_submit(t),
